@@ -58,6 +58,7 @@ RAWC = {
     "code": ("esc", lambda i: f"```html\n{S(i)}\n```\n"),
     "rawdir-latex": ("rawnode", lambda i: f"```{{raw}} latex\n{S(i)}\n```\n"),
     "subst-html": ("raw", lambda i: "{{rawsub}}\n"),
+    "subst-rst-ref": ("raw", lambda i: "{{rawsub}}\n\n```{eval-rst}\nsee |rawsub| here\n```\n"),  # the MyST substitution is not an rST substitution definition
     "title-attr": ("esc", lambda i: f"[l](u '{S(i)}')\n"),
     "comment": ("rawnode-html", lambda i: f"<!-- {S(i)} -->\n"),
     "footnote-html": ("raw", lambda i: f"ref[^f{i}]\n\n[^f{i}]: note with {S(i)} and a\\\n  break\n"),
@@ -179,8 +180,10 @@ class SecuritySystem(System):
         # file constructs side by side
         fl = [k for k, (kind, _) in FILEC.items() if kind == "read"]
         for a, b in itertools.product(fl, repeat=2):
-            if a < b:
+            if a <= b:  # (a, a): the SAME refused construct twice - each refusal is reported
                 yield [[a, b], ["top"]]
+        for a in fl:
+            yield [[a, a, a], ["quote"]]
 
     def build(self, case):
         cons, chain = case
@@ -259,8 +262,10 @@ class SecuritySystem(System):
                         bad("file-inserted", "file_insertion_enabled=False: file content was inserted", context="+".join(chain) if len(cons) == 1 else "run")
                     if opened:
                         bad("file-opened", f"file_insertion_enabled=False: the file was opened: {sorted(set(opened))}", context="+".join(chain) if len(cons) == 1 else "run")
-                    if any(k == "read" for k in kinds) and not re.search(r"(WARNING|ERROR|SEVERE)", w):
-                        bad("refusal-reported", "file_insertion_enabled=False: the file directive was refused without any warning")
+                    nread = sum(1 for k in kinds if k == "read")
+                    nrep = len(re.findall(r"\((?:WARNING|ERROR|SEVERE)/\d\)", w))
+                    if nread and nrep < nread:
+                        bad("refusal-reported", f"file_insertion_enabled=False: {nrep} reports for {nread} refused file directives", reports=min(nrep, 1))
                 if raw and fi:
                     positive = bool(nraw or sent_html or fsent or opened)
         return Obs(digest=tuple(digest), nontrivial=positive, violations=viol[:4], transitions=8, validated=4)
